@@ -221,8 +221,10 @@ def rule_glam(ctx, F, rule="R4", impls=None, prefix="glam::", floors=True):
         r = ps[0].ret
         if "Quat" in short:
             nquat += 1
-            x = X if short == "Quat" else ("cast", "FloatToFloat", X, "f64")
-            ok = r[0] == "call" and r[1].endswith("::lerp") and r[1].startswith("glam::") and r[2] == (A, B, x)
+            # DQuat: x widened to f64 (`x as f64`, `f64::from(x)` - exact either way)
+            okx = lambda t: t == X if short == "Quat" else (t[0] == "cast" and t[2] == X and str(t[3]) == "f64")
+            ok = r[0] == "call" and r[1].endswith("::lerp") and r[1].startswith("glam::") and len(r[2]) == 3 and \
+                r[2][:2] == (A, B) and okx(r[2][2])
             ctx.ob(rule, "glam/%s" % short, ok, "%s must delegate to glam's lerp(self, other, x) in that order; is %s"
                    % (short, show(r)), b["span"], what="quat-delegation-wrong")
             continue
